@@ -125,6 +125,30 @@ pub fn opts_of(o: &Value) -> Opts {
     opts
 }
 pub fn hopts_of(o: &Value) -> HistogramOpts {
+    if o.get("buckets_first").and_then(|x| x.as_bool()).unwrap_or(false) {
+        // the builder methods in the other order: buckets first, then namespace / subsystem / labels
+        let mut h = HistogramOpts::new(o.get("name").and_then(|x| x.as_str()).unwrap_or(""), o.get("help").and_then(|x| x.as_str()).unwrap_or(""));
+        if o.get("buckets").is_some() {
+            h = h.buckets(floats(o.get("buckets")));
+        }
+        if let Some(ns) = o.get("ns").and_then(|x| x.as_str()) {
+            h = h.namespace(ns);
+        }
+        if let Some(sub) = o.get("sub").and_then(|x| x.as_str()) {
+            h = h.subsystem(sub);
+        }
+        if o.get("const_map").is_some() {
+            let m: HashMap<String, String> = pairs(o.get("const_map")).into_iter().collect();
+            h = h.const_labels(m);
+        }
+        for (k, v) in pairs(o.get("const")) {
+            h = h.const_label(k, v);
+        }
+        if o.get("var").is_some() {
+            h = h.variable_labels(strs(o.get("var")));
+        }
+        return h;
+    }
     let mut h = HistogramOpts::from(opts_of(o));
     if o.get("buckets").is_some() {
         h = h.buckets(floats(o.get("buckets")));
@@ -387,6 +411,18 @@ pub fn call(env: &mut Env, c: &Value) -> Value {
             }
             let families = c.get("families").and_then(|x| x.as_array()).map(|a| a.iter().map(family_from).collect()).unwrap_or_default();
             env.insert(s(c, "as").to_owned(), Slot::Custom(CustomRef(Arc::new(CustomCollector { descs, families }))));
+            ok0()
+        }
+        "families_concat" => {
+            // what an application gets when it scrapes several registries and hands the results to ONE encode call
+            let mut f: Vec<MetricFamily> = vec![];
+            for r in strs(c.get("regs")) {
+                match env.get(r.as_str()) {
+                    Some(Slot::Reg(reg)) => f.extend(reg.gather()),
+                    _ => panic!("harness: no registry {}", r),
+                }
+            }
+            env.insert(s(c, "as").to_owned(), Slot::Families(f));
             ok0()
         }
         "families" => {
@@ -686,6 +722,24 @@ pub fn call(env: &mut Env, c: &Value) -> Value {
                 _ => panic!("harness: lclone of what"),
             };
             env.insert(s(c, "as").to_owned(), slot);
+            ok0()
+        }
+        "lclone_from" => {
+            // target.clone_from(&source) on two live local handles of the same kind
+            let src = match env.get(s(c, "from")).unwrap_or_else(|| panic!("harness: no slot")) {
+                Slot::LCounter(x) => Slot::LCounter(x.clone()),
+                Slot::LICounter(x) => Slot::LICounter(x.clone()),
+                Slot::LHist(x) => Slot::LHist(x.clone()),
+                _ => panic!("harness: lclone_from of what"),
+            };
+            // (the clone above only stands in for a borrow of the source: it is empty and is dropped without effect)
+            let src_ref: Slot = src;
+            match (env.get_mut(s(c, "obj")).unwrap(), &src_ref) {
+                (Slot::LCounter(t), Slot::LCounter(sv)) => t.clone_from(sv),
+                (Slot::LICounter(t), Slot::LICounter(sv)) => t.clone_from(sv),
+                (Slot::LHist(t), Slot::LHist(sv)) => t.clone_from(sv),
+                _ => panic!("harness: lclone_from kinds differ"),
+            }
             ok0()
         }
         "drop" => {
